@@ -44,10 +44,18 @@ func parseEd448Key(d *jsonutils.Decoder, key *Key) {
 }
 
 func encodeEd448Key(e *jsonutils.Encoder, priv ed448.PrivateKey, pub ed448.PublicKey) {
+	if err := validateEd448PublicKey(pub); err != nil {
+		e.SaveError(err)
+		return
+	}
 	e.Set("kty", jwa.OKP.String())
 	e.Set("crv", jwa.Ed448.String())
 	e.SetBytes("x", []byte(pub))
 	if priv != nil {
+		if err := validateEd448PrivateKey(priv); err != nil {
+			e.SaveError(err)
+			return
+		}
 		e.SetBytes("d", []byte(priv[:ed448.SeedSize]))
 	}
 }
